@@ -7,7 +7,7 @@ import keyword
 
 from hypothesis import strategies as st
 
-from vlib import gen
+from vlib import gen, reqgen
 from vlib.core import Info, Skip, Sub, Violation, fail
 
 PROPERTY = "C01"
@@ -79,7 +79,12 @@ def call_specs(draw, jsonclass):
                          st.sampled_from(["func", "method", "params", "args", "kwargs", "config", "cls", "name", "request", "target", "result"]))
         keys = keys.filter(lambda k: k != "self" and (not jsonclass or k != "__jsonclass__"))
         params = draw(st.dictionaries(keys, values, max_size=4))
-    result = draw(st.one_of(values, st.sampled_from([None, 0, 0.0, -0.0, False, "", [], {}, 2 ** 53, -(2 ** 53), 5e-324, 1e308])))
+    result = draw(st.one_of(values, values, st.sampled_from([None, 0, 0.0, -0.0, False, "", [], {}, 2 ** 53, -(2 ** 53), 5e-324, 1e308]),
+                            st.sampled_from(reqgen.LOOKALIKES)))
+    if draw(st.integers(0, 9)) == 0:
+        # arguments shaped like the protocol's own messages
+        la = draw(st.sampled_from(reqgen.LOOKALIKES))
+        params = [la] if isinstance(params, list) else dict(params, arg=la)
     # aliasing: the same container object may occur twice in the arguments or in the
     # result (replay files keep the sharing: the case is pickled as one graph)
     alias = draw(st.integers(0, 7))
